@@ -50,16 +50,22 @@ PROPS["C10"] = {
 }
 
 PROPS["C18"] = {
-    "explanation": "Bounded symbolic execution (gosx) of the real cisco.(*Config).MergeSpoc -> mergeCmds, mergeRefs, mergeASAACLs / mergeIOSACLs on three parts (IPv4, IPv6, raw with [APPEND] split) whose ACL lines are solver-chosen; the merged ACL is compared entry by entry (pointer identity of the parts' commands) with the order rules of the statement: every entry exactly once, order inside each part preserved, unmarked raw entries before all Netspoc entries, APPEND entries behind the last Netspoc permit and in front of the trailing Netspoc deny run; an aborted merge must print ERROR>>>.",
-    "bounds": {"quick": "ASA and IOS, one ACL, each part 0..3 lines from a menu of 7 (permit/deny, any6 deny, tcp), every [APPEND] split position",
-               "thorough": "each part 0..4 lines"},
-    "outside": "Linux chains, PAN-OS rulebases and NSX policies (not yet harnessed); object-groups and crypto/tunnel objects in raw files; name clashes; more than one ACL",
+    "explanation": "Bounded symbolic execution (gosx) of the real cisco.(*Config).MergeSpoc -> mergeCmds, mergeRefs, mergeASAACLs / mergeIOSACLs on three parts (IPv4, IPv6, raw with [APPEND] split) whose ACL lines are solver-chosen; the merged ACL is compared entry by entry (pointer identity of the parts' commands) with the order rules of the statement: every entry exactly once, order inside each part preserved, unmarked raw entries before all Netspoc entries, APPEND entries behind the last Netspoc permit and in front of the trailing Netspoc deny run; an aborted merge must print ERROR>>>. Linux: linux.(*config).MergeSpoc on chains parsed by the real parser (rules in front, [APPEND] rules, solver-chosen ACCEPT/DROP targets, routes); PAN-OS: (*PanConfig).MergeSpoc / processVsysPairs (raw rules with and without <APPEND/>, Netspoc part with or without vsys); NSX: (*NsxConfig).MergeSpoc (same or other policy id).",
+    "bounds": {"quick": "ASA and IOS, one ACL, each part 0..3 lines from a menu of 7 (permit/deny, any6 deny, tcp), every [APPEND] split position; Linux/PAN-OS/NSX: each part 0..2 rules",
+               "thorough": "each part 0..4 lines (Linux 0..3)"},
+    "outside": "object-groups and crypto/tunnel objects in raw files; name clashes; more than one ACL / chain / vsys; Linux tables other than one chain of filter; for PAN-OS the position of <APPEND/> rules is checked as behind all Netspoc rules (the pinned behaviour; Netspoc rulebases for PAN-OS carry no trailing drop rule); NSX has no APPEND marker (order follows sequence numbers)",
     "selftest": "(asa|ios)_raw", "selftest_thorough": "_raw|asa_ipv6",
     "runs": [
         {"entry": M + "/pkg/asa.VerifMergeACL", "quick": {"N": "3"}, "thorough": {"N": "4"},
          "covers": ["APPEND entry merged", "Netspoc ACL without permit line", "raw part with [APPEND] section"]},
         {"entry": M + "/pkg/ios.VerifMergeACL", "quick": {"N": "3"}, "thorough": {"N": "4"},
          "covers": ["APPEND entry merged", "Netspoc ACL without permit line", "raw part with [APPEND] section"]},
+        {"entry": M + "/pkg/linux.VerifMergeLinux", "quick": {"N": "2"}, "thorough": {"N": "3"},
+         "covers": ["two raw rules in front", "two [APPEND] rules", "Netspoc chain ends with DROP rules"]},
+        {"entry": M + "/pkg/panos.VerifMergePAN", "quick": {"N": "2"}, "thorough": {"N": "4"},
+         "covers": ["two raw rules in front", "rule with APPEND"]},
+        {"entry": M + "/pkg/nsx.VerifMergeNSX", "quick": {"N": "2"}, "thorough": {"N": "4"},
+         "covers": ["rules joined into one policy", "policy of raw part added"]},
     ],
 }
 
